@@ -347,6 +347,26 @@ func (an *Analysis) binAtom(x *ssa.BinOp, depth int) (*Atom, bool) {
 		// atom is "X == nil"; NEQ negates
 		return &Atom{Key: key, Val: an.canon(l)}, op == token.NEQ
 	}
+	// comparison of a directive's decoded value with a constant: rq.max-age.val>0
+	if ex, ok := l.(*ssa.Extract); ok && ex.Index == 0 {
+		if ac, ok := ex.Tuple.(*ssa.Call); ok {
+			if sc := ac.Call.StaticCallee(); sc != nil {
+				if di, isAcc := an.A.DirAcc[sc]; isAcc && di.Tuple && len(ac.Call.Args) > 0 {
+					if k, ok := constInt(rc); ok {
+						cls := di.Class
+						if cls == "rsT" {
+							cls = an.DirClass(ac.Call.Args[0])
+						}
+						o, neg := op, false
+						if o == token.NEQ {
+							o, neg = token.EQL, true
+						}
+						return &Atom{Key: fmt.Sprintf("%s.%s.val%s%d", cls, di.Directive, o, k), Val: ac.Call.Args[0], Op: o, K: k}, neg
+					}
+				}
+			}
+		}
+	}
 	// header presence: Header.Get(const) ==/!= ""
 	if call, ok := l.(*ssa.Call); ok && callIsMethod(&call.Call, "net/http", "Header", "Get") && (op == token.EQL || op == token.NEQ) {
 		if s, ok := constStr(rc); ok && s == "" {
@@ -434,7 +454,8 @@ func (an *Analysis) callAtom(c *ssa.Call, idx int) (*Atom, bool) {
 					}
 				}
 			}
-			return nil, false
+			// a raw decoder applied to something else (a header value): a plain named result atom
+			return &Atom{Key: fmt.Sprintf("ret:%s#%d", sc.Name(), idx)}, false
 		}
 	}
 	if idx != -1 {
